@@ -282,12 +282,12 @@ Fixpoint ascii_strict_loop (q : Z) (d : bytes) (skip : nat) (i : Z) (m : amode) 
                 | NSyntax => AFail T_ascii_num iters (cost + blen num)
                 | NRange => AFail T_ascii_latin1 iters (cost + blen num)
                 end
-              else ascii_strict_loop q t k (i + 1) (ANum (enc ++ num)) sb iters (cost + blen num + 3)
+              else ascii_strict_loop q t k (i + 1) (ANum (enc ++ num)) sb iters (cost + blen num + blen enc)
           | APlain =>
               if ch =? q then ascii_strict_loop q t k (i + 1) (AQuote false) sb iters cost
               else if ch =? 32 then ascii_strict_loop q t k (i + 1) APlain sb iters cost
               else if ch =? 62 then ADone i (rev sb) iters cost
-              else ascii_strict_loop q t k (i + 1) (ANum enc) sb iters (cost + 3)
+              else ascii_strict_loop q t k (i + 1) (ANum enc) sb iters (cost + blen enc)
           end
       end
   end.
@@ -445,14 +445,16 @@ Definition skip_comment (st : pst) : pst :=
   let '(ok, st1) := skip_space st in
   if negb ok then st1 else
   match data st1 with
-  | 47 :: 47 :: _ =>
-      let r := index_byte 10 (data st1) 0 in
-      let st2 := tick (scan_cost r st1) st1 in
-      match r with Some i => fwd (i + 1) st2 | None => st2 end
-  | 47 :: 42 :: _ =>
-      let r := index_pair 42 47 (data st1) 0 in
-      let st2 := tick (scan_cost r st1) st1 in
-      match r with Some i => fwd (i + 2) st2 | None => st2 end
+  | c0 :: c1 :: _ =>
+      if (c0 =? 47) && (c1 =? 47) then          (* strings.HasPrefix(p.data, "//") *)
+        let r := index_byte 10 (data st1) 0 in
+        let st2 := tick (scan_cost r st1) st1 in
+        match r with Some i => fwd (i + 1) st2 | None => st2 end
+      else if (c0 =? 47) && (c1 =? 42) then     (* strings.HasPrefix(p.data, "/*") *)
+        let r := index_pair 42 47 (data st1) 0 in
+        let st2 := tick (scan_cost r st1) st1 in
+        match r with Some i => fwd (i + 2) st2 | None => st2 end
+      else st1
   | _ => st1
   end.
 
@@ -795,4 +797,5 @@ Definition final_meters {A} (r : res A) : meters :=
 Definition parse_with (cf : cfg) (pf : Z -> bytes -> numres) (fuel : nat) (strict : bool) (s : bytes) : res (list msg) :=
   run_parse cf strict s (blen s) pf fuel.
 
-Definition fuel_for_input (s : bytes) : nat := S (length s).
+(** enough fuel for every input (ParserProofs): two units per byte, plus two *)
+Definition fuel_for_input (s : bytes) : nat := S (S (length s + length s)).
